@@ -35,7 +35,7 @@ def main():
     cfile = os.path.join(src, 'confirmed.json')
     patch = os.path.join(src, 'patch.diff')
     meta = {'name': name, 'kind': 'behaviour-preserving refactoring', 'source': 'independent sub-agent given only the property text and a scratch worktree'}
-    sh('git -C %s checkout -- .' % wt)
+    sh('git -C %s checkout -- . && git -C %s clean -fdq' % (wt, wt))
     assert sh('git -C %s rev-parse HEAD' % wt)[1] == sh('git -C /repo rev-parse HEAD')[1], 'worktree not at /repo HEAD'
     if phase == 'checks':
         meta['confirmed'] = json.load(open(cfile))
@@ -58,7 +58,7 @@ def main():
         if not ok:
             return 1
       finally:
-        sh('git -C %s checkout -- .' % wt)
+        sh('git -C %s checkout -- . && git -C %s clean -fdq' % (wt, wt))
     if phase == 'confirm':
         return 0
     m = json.load(open(os.path.join(VERIF, 'MANIFEST.json')))
@@ -80,7 +80,7 @@ def main():
                 alarms[pid] = {'exit': rc, 'lines': lines[:8]}
         shutil.rmtree(ev, ignore_errors=True)
     finally:
-        sh('git -C %s checkout -- .' % target)
+        sh('git -C %s checkout -- . && git -C %s clean -fdq -- mistletoe' % (target, target))
         assert sh('git -C %s status --short' % target)[1].strip() == ''
     meta['alarms'] = alarms
     dst = os.path.join(VERIF, 'seeded', 'benign', name)
